@@ -958,12 +958,43 @@ func c05LongFallback(c *Ctx) {
 			f.cb = cb
 			c.Count("longfallback_with_library_response_fallback", 1)
 		}
+		wantLocation := func(path string) string { return "" }
+		if i%3 == 1 {
+			// the library's own RedirectFallback, with and without the request path appended to its target
+			target := pick(r, []string{"http://standby.test/maintenance", "https://standby.test:8443", "http://standby.test/a/b"})
+			preserve := r.IntN(3) != 0
+			wantFallback = http.StatusFound
+			wantLocation = func(path string) string {
+				if preserve {
+					return target + path
+				}
+				return target
+			}
+			rf, err := cbreaker.NewRedirectFallback(cbreaker.Redirect{URL: target, PreservePath: preserve})
+			if err != nil {
+				panic(err)
+			}
+			cb, err := cbreaker.New(http.HandlerFunc(func(w http.ResponseWriter, req *http.Request) {
+				f.handled.Add(1)
+				w.WriteHeader(int(f.status.Load()))
+			}), "NetworkErrorRatio() > 0.5", cbreaker.FallbackDuration(fb), cbreaker.RecoveryDuration(time.Second), cbreaker.CheckPeriod(0), cbreaker.Fallback(rf))
+			if err != nil {
+				panic(err)
+			}
+			f.cb = cb
+			c.Count("longfallback_with_library_redirect_fallback", 1)
+		}
 		lastCode := 0
+		lastLocation, lastPath := "", ""
+		nServed := 0
 		serve := func() bool { // true: reached the handler
 			h0 := f.handled.Load()
 			rec := httptest.NewRecorder()
-			f.cb.ServeHTTP(rec, httptest.NewRequest("GET", "http://x.test/", nil))
+			nServed++
+			lastPath = sfmt("/r%d/item", nServed)
+			f.cb.ServeHTTP(rec, httptest.NewRequest("GET", "http://x.test"+lastPath, nil))
 			lastCode = rec.Code
+			lastLocation = rec.Header().Get("Location")
 			return f.handled.Load() != h0
 		}
 		serve() // 502: trips at the first completion
@@ -994,6 +1025,11 @@ func c05LongFallback(c *Ctx) {
 			if lastCode != wantFallback {
 				c.Eval()
 				c.Violation("shield/answer", sfmt("fallback duration %v: a request arriving %v after the trip was not passed on, but it was answered %d; the configured fallback answers %d", fb, elapsed, lastCode, wantFallback), nil)
+				return
+			}
+			if want := wantLocation(lastPath); want != "" && lastLocation != want {
+				c.Eval()
+				c.Violation("shield/answer", sfmt("refused request %d (%s) of a breaker whose fallback redirects to %s: answered with Location %q", nServed-1, lastPath, want, lastLocation), nil)
 				return
 			}
 			if s, _, _ := d.observe(); s != "tripped" {
